@@ -94,8 +94,33 @@ def make_vec(ctx, n, fam):
     return clean(v / np.linalg.norm(v))
 
 
-def build(v):
+UNREACHED_JUSTIFIED = {}   # blackbox.py: with entry_forms() every statement and branch outcome is reached in the quick tier
+
+FORMS = ("label", "ndarray", "float-list", "static", "static-qubits")
+_HOST = {}
+
+
+def build(v, form="plain", wires=None):
+    """definition of the REAL gate; `form` = entry path (label, ndarray / real-float-list params, the static initialize() with
+    qubits=None or an explicit permuted wire list on a wider host circuit, kept in _HOST['host'])"""
+    from qiskit import QuantumCircuit
     from qclib.state_preparation.blackbox import BlackBoxInitialize
+    _HOST.clear()
+    if form == "label":
+        return BlackBoxInitialize(list(v), label="psi").definition
+    if form == "ndarray":
+        return BlackBoxInitialize(np.asarray(v, dtype=complex)).definition
+    if form == "float-list":          # real vector handed over as Python floats
+        return BlackBoxInitialize([float(a.real) for a in v]).definition
+    if form in ("static", "static-qubits"):
+        w = int(round(math.log2(len(v)))) + 1
+        host = QuantumCircuit(w if form == "static" else w + 1)
+        if form == "static":
+            BlackBoxInitialize.initialize(host, list(v))
+        else:
+            BlackBoxInitialize.initialize(host, list(v), qubits=list(wires))
+        _HOST["host"] = host
+        return host.data[0].operation.definition
     return BlackBoxInitialize(list(v)).definition
 
 
@@ -180,8 +205,8 @@ def vec_payload(v):
     return [[float(a.real), float(a.imag)] for a in v]
 
 
-def tie_case(ctx, n, fam, v):
-    circ = build(v)
+def tie_case(ctx, n, fam, v, form="plain", wires=None):
+    circ = build(v, form, wires)
     ctx.tie({"op": "bb", "n": n, "re": [float(a.real) for a in v], "im": [float(a.imag) for a in v]},
             dump(circ), label=f"bb n={n} {fam}")
     ctx.count("tie:" + fam)
@@ -219,6 +244,42 @@ def oracle_case(ctx, n, fam, v, key, circ=None):
     else:
         ctx.ok(key, nontrivial=True, sample={"n": n, "family": fam, "r": r, "amp": amp, "err0": e0, "err1": e1,
                                               "max_modulus": absmax, "zeros": int(sum(1 for a in v if a == 0))})
+
+
+def entry_forms(ctx):
+    """same property through the other entry paths of blackbox.py (see build); for the static forms additionally: the
+    instruction sits on the requested wires and the host circuit carries the same state there"""
+    from qiskit.quantum_info import Statevector
+    r = ctx.rng
+    for form in FORMS:
+        for n in (1, 2, 3):
+            fam = "real" if form == "float-list" else r.choice(["haar", "sparse", "unimod", "pyth" if n >= 1 else "haar"])
+            v = make_vec(ctx, n, fam)
+            w = n + 1
+            wires = r.sample(range(w + 1), w) if form == "static-qubits" else list(range(w))
+            try:
+                circ = tie_case(ctx, n, fam, v, form, wires)
+            except Exception as e:
+                ctx.fail(f"blackbox.flag0:n={n}:{fam}:form={form}:raises", f"{type(e).__name__}: {e}",
+                         {"n": n, "family": fam, "vector": vec_payload(v), "form": form, "wires": wires})
+                continue
+            host = _HOST.get("host")
+            ctx.count("branch:entry-form:" + form)
+            oracle_case(ctx, n, fam, v, f"n={n}:{fam}:form={form}", circ=circ)
+            if host is not None:
+                on = [host.find_bit(q).index for q in host.data[0].qubits]
+                sv = np.asarray(Statevector(circ).data)
+                hv = np.asarray(Statevector(host).data)
+                want = np.zeros(2 ** host.num_qubits, dtype=complex)
+                for i, a in enumerate(sv):
+                    want[sum(((i >> b) & 1) << wires[b] for b in range(w))] = a
+                err = float(np.abs(hv - want).max())
+                key = f"blackbox.static-wiring:n={n}:{fam}:form={form}"
+                if on != wires or err > 1e-9:
+                    ctx.fail(key, f"initialize(...) appended on wires {on} (asked {wires}); host state differs by {err:.3e}",
+                             {"n": n, "family": fam, "vector": vec_payload(v), "form": form, "wires": wires})
+                else:
+                    ctx.ok(key, nontrivial=True)
 
 
 def assumptions(ctx, nmax=6):
@@ -289,6 +350,7 @@ def run(ctx, n_tie=None, n_or=None, draws=None):
     draws = draws or (2 if ctx.quick else 4)
     # the concrete input of the (fixed) arccos-NaN defect: must pass
     oracle_case(ctx, 1, "probe", PROBE, "n=1:probe", circ=tie_case(ctx, 1, "probe", PROBE))
+    entry_forms(ctx)
     for n in range(1, n_or + 1):
         for fam in FAMILIES:
             if fam == "pyth" and n < 1:
